@@ -15,6 +15,10 @@ def fnum(x):
     return float(x)
 
 
+class LookupMismatch(Exception):
+    pass
+
+
 class Entry(object):
     __slots__ = ('obj', 'lines', 'absorbed', 'kind', 'raw')
 
@@ -130,9 +134,19 @@ class History(object):
         return True
 
     def _atom(self, absorbed_ok=False):
-        ats = [a for a in self.shx.atoms.all_atoms if find_entry(self.ents, a) is not None
-               and (absorbed_ok or not self.ents[find_entry(self.ents, a)].absorbed)]
-        return self.rng.choice(ats) if ats else None
+        """an atom the file holds (an entry of the abstract list), reached the way a user reaches it: through the atom list"""
+        ats = [e.obj for e in self.ents if e.kind == 'atom' and (absorbed_ok or not e.absorbed)]
+        if not ats:
+            return None
+        a = self.rng.choice(ats)
+        names = [x.fullname.upper() for x in ats]
+        if names.count(a.fullname.upper()) == 1 and len([e for e in self.ents if e.kind == 'atom' and e.obj.fullname.upper() == a.fullname.upper()]) == 1:
+            found = self.shx.atoms.get_atom_by_name(a.fullname)
+            if found is not a:
+                raise LookupMismatch('atom %s of the file is not what the atom list returns for that name (%s)' % (a.fullname, getattr(found, 'fullname', None)))
+        elif not any(x is a for x in self.shx.atoms.all_atoms):
+            raise LookupMismatch('atom %s of the file is not in the atom list' % a.fullname)
+        return a
 
     def op_delete_atom(self):
         a = self._atom(absorbed_ok=True)
@@ -310,3 +324,15 @@ def sfac_after_add(lines, el):
     else:
         lines.append(['SFAC', el])
     return lines
+
+
+def duplicate_file(rng):
+    """two residues that hold atoms with identical text lines (a copied residue that has not been moved yet)"""
+    lines = ['TITL duplicates', 'CELL 0.71073 10.5 11.2 12.3 90 95.5 90', 'ZERR 4 0.001 0.002 0.003 0.01 0.02 0.03', 'LATT 1', 'SFAC C H O N', 'UNIT 16 20 4 2',
+             'L.S. 10', 'PLAN 20', 'WGHT 0.05 0.3', 'FVAR 1.0 0.6', 'FVAR 0.3']
+    body = ['%s %d %.5f %.5f %.5f 11.00000 0.04' % (n, s, rng.random(), rng.random(), rng.random()) for n, s in (('C1', 1), ('C2', 1), ('O1', 3), ('H1', 2))]
+    lines += ['O9 3 0.5 0.5 0.5 11.0 0.05']
+    for r in (1, 2, 3):
+        lines += ['RESI %d TOL' % r] + body
+    lines += ['RESI 0', 'HKLF 4', 'END']
+    return '\n'.join(lines) + '\n'
